@@ -508,6 +508,7 @@ def r5_pkg_protocol(ctx, floor=21):
     steps = package_steps(ctx.repo)
     run.floor('R5', len(steps), floor, 'function-style package steps')
     for fi in steps:
+        fi = ctx.N(fi)      # (a step that delegates to a generator helper is read with the helper in place)
         sp = StepPhases(ctx.repo, ctx.res, fi)
         aliases = descriptor_aliases(fi)
         n_ok = 0
